@@ -17,8 +17,9 @@ from vf.core import exc_key
 
 LEVEL = "exploration"
 RULE = ("exhaustive part (same for every seed): simple polygons given as vertex sequences on the 4x4 integer grid; "
-        "thorough: every sequence (every start vertex, both orientations) with 3, 4 and 5 vertices plus a seeded half "
-        "of the 6-vertex ones with their smallest vertex first; quick: every 3-vertex sequence, the 4-vertex ones "
+        "thorough: every sequence (every start vertex, both orientations) with 3 and 4 vertices, every 5-vertex polygon "
+        "with its smallest vertex first in both orientations plus a seeded fifth of the other start-vertex rotations, "
+        "and a seeded half of the 6-vertex ones with their smallest vertex first; quick: every 3-vertex sequence, the 4-vertex ones "
         "with their smallest vertex first (both orientations) and a seeded third of such 5-vertex ones; each against "
         "all 16 grid points, 8 calls per point (wind, inside x2, insideOnly, outside x2, outsideOnly, sideOnly); "
         "random part: star-shaped and 2-opt-untangled simple polygons with 5..40 vertices and coordinates up to "
@@ -187,13 +188,17 @@ def run(ctx):
         raise Inconclusive("polygon enumerator disagrees with brute force")
     quads = enumerate_grid(4, ctx.quick)           # quick: smallest vertex first only (4 580 of the 18 320 sequences)
     codes = enumerate_grid(3, False) + quads
-    pent_all = enumerate_grid(5, True) if ctx.quick else enumerate_grid(5, False)
+    pent_canon = enumerate_grid(5, True)
     if ctx.quick:
-        # quick tier: a seeded third of the pentagons (smallest vertex first); thorough takes every sequence
+        # quick tier: a seeded third of the pentagons (smallest vertex first)
         off = ctx.seed % 3
-        pent = [c for i, c in enumerate(pent_all) if i % 3 == off]
+        pent = [c for i, c in enumerate(pent_canon) if i % 3 == off]
     else:
-        pent = pent_all
+        # thorough: every pentagon (smallest vertex first, both orientations) plus a seeded fifth of the
+        # remaining start-vertex rotations
+        canon = set(pent_canon)
+        others = [c for c in enumerate_grid(5, False) if c not in canon]
+        pent = pent_canon + [c for i, c in enumerate(others) if i % 5 == ctx.seed % 5]
     codes += pent
     nhex = 0
     if not ctx.quick:
@@ -204,14 +209,15 @@ def run(ctx):
     import random
     random.Random(5).shuffle(codes)               # balance the chunks; the set of cases is unchanged
     jobs = [{"kind": "grid", "codes": ch} for ch in fnref.chunks(codes, ctx.pick(16, 128))]
-    nrand = ctx.pick(640, 8000)
+    nrand = ctx.pick(640, 6000)
     per = ctx.pick(80, 500)
     jobs += [{"kind": "random", "count": per} for _ in range(nrand // per)]
     ctx.shard(jobs, timeout=ctx.pick(120, 340))
     ctx.exhaustive = True
     ctx.extra["exhaustive_scope"] = ("4x4 grid, against all 16 grid points: " + (
         "all 3-vertex sequences, all 4-vertex polygons (one start vertex, both orientations), 5-vertex ones sampled"
-        if ctx.quick else "all simple vertex sequences with 3, 4 and 5 vertices; 6-vertex ones sampled") +
+        if ctx.quick else "all simple vertex sequences with 3 and 4 vertices, all 5-vertex polygons (one start vertex, both orientations; other "
+        "rotations sampled); 6-vertex ones sampled") +
         "; larger polygons sampled")
     ctx.floor("grid_polygons_3", 3096)
     ctx.floor("grid_polygons_4", len(quads))
